@@ -4,6 +4,7 @@ package main
 
 import (
 	"bytes"
+	"encoding/json"
 	"fmt"
 	"sort"
 	"strings"
@@ -194,7 +195,11 @@ func init() {
 		if stall {
 			props = append(props, "C06") // a stalled peer must not hang request calls
 		}
-		register(&scenario{Name: name, Props: props, Quick: quick, Run: func(t *T) {
+		var codec protocol.CodecType
+		if strings.HasSuffix(name, "-json") {
+			codec = protocol.CodecJSON
+		}
+		register(&scenario{Name: name, Props: props, Quick: quick, Codec: codec, Run: func(t *T) {
 			p := newPeer(t, t.Transport, t.Version)
 			defer p.Shutdown()
 			p.onConn = func(pc *peerConn) {
@@ -285,6 +290,13 @@ func init() {
 					}
 				}
 				t.Check("ws_one_message_per_frame", bad == 0, "%d WebSocket messages were not exactly one frame", bad)
+				txt := 0
+				for _, e := range t.events {
+					if e.Kind == "peer.ws_frame_in_text_message" {
+						txt++
+					}
+				}
+				t.Check("ws_binary_message", txt == 0, "%d frames travelled as WebSocket text messages (frames are binary messages, whatever the body codec)", txt)
 			}
 			// every accepted write exactly once, per-writer order preserved
 			seen := map[int][]int{}
@@ -299,7 +311,12 @@ func init() {
 					}
 				}
 				var a control.AuthRequest
-				if pb.Unmarshal(body, &a) != nil {
+				if codec == protocol.CodecJSON {
+					if json.Unmarshal(body, &a) != nil {
+						t.Check("stream_shape", false, "a frame body does not decode as JSON (torn frame?)")
+						continue
+					}
+				} else if pb.Unmarshal(body, &a) != nil {
 					t.Check("stream_shape", false, "a frame body does not decode (torn frame?)")
 					continue
 				}
@@ -314,6 +331,8 @@ func init() {
 		}})
 	}
 	outScenario("c12/writers-4-small", true, 4, 30, []int{1, 8, 100}, 64, 0, false)
+	outScenario("c12/writers-4-small-json", true, 4, 12, []int{1, 8, 100, 3000}, 64, 0, false)
+	outScenario("c12/backlog-midsize", true, 24, 6, []int{9000, 20000, 30000, 50000}, 64, 1<<30, false)
 	outScenario("c12/writers-16-mixed", true, 16, 12, []int{1, 40, 3000, 70000}, 64, 1024, false)
 	outScenario("c12/big-frames", true, 3, 3, []int{1 << 20, 2500000}, 16, 1<<30, false)
 	outScenario("c12/queue-1", true, 6, 20, []int{10, 500}, 1, 0, false)
